@@ -331,3 +331,132 @@ func posOf(in ssa.Instruction) token.Pos {
 	}
 	return in.Pos()
 }
+
+// fieldStoresIn lists Store/MapUpdate/delete instructions in fn (not closures unless deep) on owner.field.
+func fieldStoresIn(fn *ssa.Function, deep bool, owner, field string) []ssa.Instruction {
+	var out []ssa.Instruction
+	AllInstrs(fn, deep, func(in ssa.Instruction) {
+		switch x := in.(type) {
+		case *ssa.Store:
+			if _, isFA := x.Addr.(*ssa.FieldAddr); isFA {
+				if o, f, ok := FieldOf(x.Addr); ok && o == owner && f == field {
+					out = append(out, in)
+				}
+			}
+		case *ssa.MapUpdate:
+			if o, f, ok := FieldOf(x.Map); ok && o == owner && f == field {
+				out = append(out, in)
+			}
+		case *ssa.Call:
+			if bi, ok := x.Call.Value.(*ssa.Builtin); ok && (bi.Name() == "delete" || bi.Name() == "clear") && len(x.Call.Args) > 0 {
+				if o, f, ok := FieldOf(x.Call.Args[0]); ok && o == owner && f == field {
+					out = append(out, in)
+				}
+			}
+		}
+	})
+	return out
+}
+
+// boolFieldEdges returns the CFG edges taken when `owner.field` (a bool field load used
+// directly as an If condition, possibly negated) has value val.
+func boolFieldEdges(fn *ssa.Function, owner, field string, val bool) edgeSet {
+	out := edgeSet{}
+	for _, b := range fn.Blocks {
+		ifi := ifOf(b)
+		if ifi == nil {
+			continue
+		}
+		v, pol := ifi.Cond, true
+		for {
+			if u, ok := v.(*ssa.UnOp); ok && u.Op == token.NOT {
+				v, pol = u.X, !pol
+				continue
+			}
+			break
+		}
+		if !isFieldLoad(v, owner, field) {
+			continue
+		}
+		// cond == pol ⇔ field true
+		idx := 0
+		if pol != val {
+			idx = 1
+		}
+		out[[2]*ssa.BasicBlock{b, b.Succs[idx]}] = true
+	}
+	return out
+}
+
+// underLock: every instruction in ins executes with lock id held (write, or read when allowRead).
+func underLock(c *Ctx, rule string, fn *ssa.Function, ls *LockSets, what string, ins []ssa.Instruction, id string, allowRead bool) {
+	for i, in := range ins {
+		k := key(fn, fmt.Sprintf("%s[%d]@%s", what, i+1, id))
+		if ls.Holds(in, id, allowRead) {
+			c.Pass(rule, k, in.Pos(), 1, "%s executes with %s held (held: %v)", what, id, ls.HeldAt(in))
+		} else {
+			c.Fail(rule, k, in.Pos(), 1, "%s executes without %s (held: %v)", what, id, ls.HeldAt(in))
+		}
+	}
+}
+
+// sentinelGuards: every If whose true edge leads directly to a block that returns the
+// package-level sentinel error `global` (e.g. "ErrTxnTooBig" in utils) must dominate
+// target through its false edge; at least min such guards must exist.
+func sentinelGuards(c *Ctx, rule string, fn *ssa.Function, sentinel string, target ssa.Instruction, tDesc string, min int) {
+	n := 0
+	ei := ErrorResultIndex(fn)
+	for _, r := range Returns(fn) {
+		v := RetVal(r, ei)
+		u, ok := v.(*ssa.UnOp)
+		if !ok || u.Op != token.MUL {
+			continue
+		}
+		g, ok := u.X.(*ssa.Global)
+		if !ok || g.Name() != sentinel {
+			continue
+		}
+		rb := r.Block()
+		for _, p := range rb.Preds {
+			ifi := ifOf(p)
+			if ifi == nil {
+				continue
+			}
+			n++
+			k := key(fn, fmt.Sprintf("%s<-reject(%s)[%d]", tDesc, sentinel, n))
+			other := p.Succs[1]
+			if p.Succs[0] != rb {
+				other = p.Succs[0]
+			}
+			if EdgeDominates(p, other, target.Block()) || chainDominates(p, other, target.Block()) {
+				c.Pass(rule, k, ifi.Pos(), 2, "the %s rejection guards %s (its pass edge dominates it)", sentinel, tDesc)
+			} else {
+				c.Fail(rule, k, ifi.Pos(), 2, "%s is reachable without passing the %s rejection test", tDesc, sentinel)
+			}
+		}
+	}
+	if n < min {
+		c.Fail(rule, key(fn, "has:reject("+sentinel+")"), fn.Pos(), 1, "expected at least %d guard(s) returning %s before %s, found %d", min, sentinel, tDesc, n)
+	}
+}
+
+// chainDominates handles `a || b` lowering: the pass edge of the first test leads to
+// the second test block which has the reject block as other successor; the pass edge of
+// the chain dominates target if `other` dominates target or other's non-reject successor does.
+func chainDominates(p, other, target *ssa.BasicBlock) bool {
+	return other.Dominates(target) && len(other.Preds) == 1
+}
+
+// calleeReturnsClosure returns the function literal bodies returned by fn at result index i.
+func returnedClosures(fn *ssa.Function, i int) []*ssa.Function {
+	var out []*ssa.Function
+	for _, r := range Returns(fn) {
+		v := RetVal(r, i)
+		if mc, ok := v.(*ssa.MakeClosure); ok {
+			if f, ok := mc.Fn.(*ssa.Function); ok {
+				out = append(out, f)
+			}
+		}
+	}
+	return out
+}
